@@ -3,6 +3,7 @@ mod common;
 mod tok;
 mod ehist;
 mod c02;
+mod c01;
 
 use common::Tier;
 
@@ -19,6 +20,7 @@ fn main() {
     common::quiet_panics();
     match args[1].as_str() {
         "C02" => c02::run(tier),
+        "C01" => c01::run(tier),
         other => {
             eprintln!("unknown property {other}");
             std::process::exit(2);
